@@ -16,13 +16,19 @@ MANIFEST = dict(
          'the 16 witness-needing certificate kinds with pool operator AND owners, key reward accounts, key voters) is in the '
          'builder\'s required set, and the builder adds nothing but the legacy-registration key (side conditions refs_registered / '
          'refs_used on how reference scripts are handed over, decidable and evaluated on every scenario); the witnesses of build_and_sign are '
-         'exactly (32-byte key, signature of blake2b-256(body)) of the supplied keys that are required (all when forced), one per key '
-         'hash, ordinary and extended keys alike; the placeholder witnesses are as many as distinct required hashes (<=256), 32+64 '
-         'bytes, pairwise distinct; BIP32ED25519PrivateKey.sign satisfies S.B = R + h.A from the group laws (scalar arithmetic mod L '
-         'explicit). Tie: slice correspondence of all collectors on prepared real builders, build_and_sign end to end, and the '
-         'oracle (independent RFC 8032 verification over the body slice of tx.to_cbor(), witness set = supplied /\\ required read '
-         'from the transaction itself, reference inputs resolved through the scenario\'s UTxO table and a referenced native script '
-         'counted when its hash (hashlib over the CBOR Coq produces) is one the transaction needs) on the implementation\'s signed transactions.',
+         'exactly (32-byte key, signature of blake2b-256(body)) of the supplied keys that are required (all when forced, wherever they stand '
+         'in the list), one per key hash, ordinary and extended keys alike — stated for the builder as build() leaves it (after_build: UTxOs '
+         'added by coin selection, then the automatic required signers, then the collateral picked by _set_collateral_return; Plutus scripts '
+         'count for is_smart / self.scripts); the placeholder witnesses of the last fee estimate are as many as that builder has distinct '
+         'required hashes (<=256), 32+64 bytes, pairwise distinct, cover every key-locked UTxO build() added as input or collateral, and '
+         'their number equals the number of distinct ledger-required hashes of the emitted transaction (C10_fee_placeholders; counting before '
+         'the collateral is picked is refuted by example); BIP32ED25519PrivateKey.sign satisfies S.B = R + h.A from the group laws (scalar '
+         'arithmetic mod L explicit). Tie: slice correspondence of all collectors on prepared real builders, build_and_sign end to end '
+         '(native and Plutus V1-V3 scripts, builder-picked collateral, coin selection), and the oracle (independent RFC 8032 verification '
+         'over the body slice of tx.to_cbor(), witness set = supplied /\\ required read from the transaction itself, reference inputs resolved '
+         'through the scenario\'s UTxO table and a referenced native script counted when its hash (hashlib over the CBOR Coq produces) is one '
+         'the transaction needs; fee of the body >= the ledger minimum fee of the transaction re-encoded in Coq with one placeholder witness '
+         'per distinct required hash, and below that with one more) on the implementation\'s signed transactions.',
     note='Trusted: Coq kernel+vm_compute; hand model Witness.v tied by correspondence; hashlib BLAKE2b; tools/refcrypto RFC 8032; the '
          'harness CBOR walker (cross-checked against Cbor.decode in Coq). Assumed, in the statements: group laws, L.B=0, point '
          'compression invertible; NaCl ordinary-key signing verifies (C10_witnesses_valid only). No axioms.',
@@ -31,7 +37,10 @@ MANIFEST = dict(
 TRUSTED = [
     'Coq 8.16.1 kernel incl. vm_compute (no native_compute); no axioms (see Print Assumptions lines)',
     'hand model coq/theories/Witness.v of txbuilder.py (_*_vkey_hashes, _build_required_vkeys, _witness_count, '
-    '_build_fake_vkey_witnesses, build_and_sign witness loop), key.py, witness.py, crypto/bip32.py sign — tied by correspondence',
+    '_build_fake_vkey_witnesses, build_and_sign witness loop, the order of coin selection / automatic required signers / collateral '
+    'choice in build()), key.py, witness.py, crypto/bip32.py sign — tied by correspondence',
+    'specification transcription WitnessOracle.min_fee (Conway: a*|tx| + b + ceil(price_mem*mem + price_step*steps) + base*reference-script '
+    'bytes, first tier) with protocol parameters echoed by the driver from its chain context',
     'specification transcription Witness.Ledger (Conway UTXOW witsVKeyNeeded + key leaves of native scripts in the witness set and of '
     'needed native scripts in reference / spent outputs; scriptsNeeded = script inputs, policies, script certificates/withdrawals/voters)',
     'the harness\'s native-script CBOR encoder ns_enc (cross-checked: Coq re-encodes every script with Cbor.enc and must find the digest)',
@@ -44,9 +53,16 @@ ASSUMPTIONS = [
     'libsodium scalar_reduce / scalar_mul / scalar_add / scalarmult_base_noclamp behave as modelled (x mod L arithmetic on little-endian '
     '32-byte strings; bit 255 of the scalar cleared); the zero-scalar failure of scalarmult_base_noclamp (probability 2^-252) is not modelled',
     'extended signing keys are laid out kL kR A cc with A = kL.B and kL < 2^255 (what HDWallet derivation produces)',
-    'scenarios contain native scripts only (no Plutus); inputs are explicit (no coin selection), so the builder description given to '
-    'the model is the one the transaction is built from; when _reference_scripts is non-empty and no collateral is given the builder '
-    'picks collateral among the inputs (adds no key hash; checked per case: required sets of model and transaction agree)',
+    'which UTxOs coin selection adds and which collateral _set_collateral_return picks is taken from the implementation\'s run (builder.inputs / '
+    'builder.collaterals after build minus what the scenario put there) and cross-checked against the transaction (inputs / collateral of the '
+    'body resolved through the UTxO table: counts, required key hashes, needed scripts); the model fixes WHEN collateral is looked for '
+    '(picks_collateral, compared per case) and what the additions do to the required set, not the selection itself',
+    'Plutus scripts are opaque bytes with explicit execution units (ExecutionUnits(0, 0) and evaluation through the context are outside), handed '
+    'over as objects or through a separate reference UTxO (not carried by the spent UTxO itself); a UTxO that carries a referenced Plutus script '
+    'does not sit at an address the scenario spends from (it would be selected as input and as reference input at once)',
+    'fee clause: prices are Fractions (the declared type), reference scripts stay within the first tier (checked in Coq), no fee_buffer, no '
+    'witness_override; upper margin = bytes of scripts carried by spent inputs + 16 bytes + 1 lovelace (the builder\'s fake transaction keeps '
+    'scripts that build_and_sign drops with remove_dup_script, sizes the fee field for the maximum fee and the change for the first-pass fee)',
     'domain restriction (explicit, checked by c10_domain): reference scripts are handed over through add_script_input / add_*_script '
     'for a purpose the transaction has (refs_registered, refs_used); a script-locked UTxO added with plain add_input plus a hand-made '
     'reference input, or add_minting_script(<UTxO>) without minting under that policy, are outside',
@@ -236,10 +252,12 @@ def ns_has_leaf(ns):
     return False
 
 
-def gen_scenario(rng, U, alias, i, sign):
+def gen_scenario(rng, U, alias, i, sign, complete=False):
+    """complete: every key hash of the scenario belongs to a key that is supplied (the transaction can be signed completely,
+    the usual situation of a wallet); unrelated keys are supplied on top, in any position of the list"""
     pool = rng.sample(range(len(U)), rng.randint(3, 8))
     def some_hash():
-        return U[rng.choice(pool)]['kh'] if rng.random() < 0.75 else rng.randbytes(28).hex()
+        return U[rng.choice(pool)]['kh'] if complete or rng.random() < 0.75 else rng.randbytes(28).hex()
     def cred(pk=0.7):
         return ['k', some_hash()] if rng.random() < pk else ['s', rng.randbytes(28).hex()]
     want = set(rng.sample(['inputs', 'collateral', 'rs', 'native', 'attached', 'certs', 'withdrawals', 'voters'],
@@ -347,8 +365,8 @@ def gen_scenario(rng, U, alias, i, sign):
             if (kind, c[1]) not in seen:
                 seen.add((kind, c[1])); voters.append(dict(kind=kind, cred=c, votes=rng.randint(1, 2)))
     # signing keys: from the pool (required or not), unrelated ones, duplicates, aliases of the same key pair
-    supplied = [k for k in pool if rng.random() < 0.7]
-    supplied += rng.sample(range(len(U)), rng.randint(0, 2))
+    supplied = [k for k in pool if complete or rng.random() < 0.7]
+    supplied += rng.sample(range(len(U)), rng.randint(0, 3 if complete else 2))
     if supplied and rng.random() < 0.4:
         supplied.append(rng.choice(supplied))
     for k in list(supplied):
@@ -358,10 +376,129 @@ def gen_scenario(rng, U, alias, i, sign):
     wo = None
     if rng.random() < 0.12:
         wo = rng.choice([0, 1, 3, 7])
-    return dict(keys=U, supplied=supplied, force=rng.random() < 0.3, auto=rng.choice([None, None, True, False]),
+    return dict(keys=U, supplied=supplied, force=rng.random() < (0.5 if complete else 0.3), auto=rng.choice([None, None, True, False]),
                 utxos=utxos, inputs=inputs, collateral=collateral, required_signers=rs, native_scripts=native,
                 attached=attached, extra_refs=extra_refs, certs=certs, withdrawals=withdrawals, voters=voters,
                 witness_override=wo, change=['k', some_hash()], sign=sign)
+
+
+def plutus_hash(ver, body_hex):
+    """script hash of a Plutus script: BLAKE2b-224(language byte || script bytes)"""
+    return b224(bytes([ver]) + bytes.fromhex(body_hex)).hex()
+
+
+def gen_build_scenario(rng, U, alias, i):
+    """transactions that build() itself extends: Plutus scripts (spend / mint / withdraw / certificate, V1-V3, shipped or
+    referenced) whose collateral is given or has to be picked by the builder — among the inputs, the potential inputs,
+    the wallet at the change address or at a separate collateral_change_address, one or several UTxOs, of keys that
+    are or are not required otherwise —, and outputs that need coin selection from input addresses / potential inputs.
+    Signing keys: all keys of the scenario (complete) or a subset, plus unrelated ones, any order; forced or not."""
+    pool = rng.sample(range(len(U)), rng.randint(3, 6))
+    def some_hash():
+        return U[rng.choice(pool)]['kh']
+    utxos, inputs, collateral, plutus, potential, input_addresses, outputs = [], [], [], [], [], [], []
+    def new_utxo(pay, coin, **kw):
+        u = dict(txid=rng.randbytes(32).hex(), ix=rng.randint(0, 40), pay=pay, stake=None, coin=coin)
+        u.update(kw)
+        utxos.append(u)
+        return len(utxos) - 1
+    change = ['k', some_hash()]
+    with_plutus = i % 5 != 4                      # every fifth: no script at all, coin selection only
+    have = 0
+    mode = rng.choice(['explicit', 'pick', 'pick', 'pick'])
+    # isolated: nothing but the script input pays, so the collateral the builder finds belongs to a key of its own
+    isolated = with_plutus and mode == 'pick' and rng.random() < 0.6
+    if with_plutus:
+        hows = [rng.choice(['input'] if isolated else ['input', 'input', 'input', 'mint', 'withdrawal', 'cert'])]
+        if rng.random() < 0.3:
+            hows.append(rng.choice(['input', 'mint', 'withdrawal', 'cert']))
+        used = set()
+        for how in hows:
+            if how != 'input' and how in used:
+                continue
+            used.add(how)
+            ver = rng.choice([1, 2, 2, 3])
+            body = rng.randbytes(rng.randint(8, 70)).hex()
+            h = plutus_hash(ver, body)
+            via = rng.choice(['witness', 'witness', 'ref'])
+            # explicit execution units (an ExecutionUnits(0, 0) counts as "not given" and asks for an evaluation)
+            a = dict(how=how, ver=ver, body=body, via=via, mem=rng.randint(1, 2000000),
+                     steps=rng.choice([0, rng.randint(1, 500000000)]))
+            if how == 'input':
+                coin = rng.randint(8, 40) * ADA
+                a['utxo'] = new_utxo(['s', h], coin, datum=rng.choice(['hash', 'inline']))
+                inputs.append(a['utxo']); have += coin
+            if via == 'ref':
+                a['ref_utxo'] = new_utxo(['k', rng.randbytes(28).hex()] if rng.random() < 0.7 else ['s', rng.randbytes(28).hex()],
+                                         12 * ADA, pscript=[ver, body])
+            plutus.append(a)
+    # key-locked explicit inputs: none, too small to serve as collateral (<= 2 ADA), or ordinary
+    r = rng.random() * (0.5 if isolated else 1)
+    if r < 0.3:
+        for _ in range(rng.randint(1, 2)):
+            coin = rng.randint(1200000, 2000000)
+            inputs.append(new_utxo(['k', some_hash()], coin)); have += coin
+    elif r < 0.6:
+        for _ in range(rng.randint(1, 2)):
+            coin = rng.randint(3, 30) * ADA
+            inputs.append(new_utxo(['k', some_hash()], coin)); have += coin
+    # outputs; when they ask for more than the explicit inputs hold, coin selection has to add UTxOs
+    select = (not with_plutus) or (not isolated and rng.random() < 0.35) or have < 6 * ADA
+    if select:
+        want = have + rng.randint(5, 40) * ADA
+        outputs.append([['k', some_hash()], want])
+        src = rng.choice(['address', 'address', 'potential', 'both'])
+        room = want + 30 * ADA
+        if src in ('address', 'both'):
+            w = ['k', some_hash()]
+            input_addresses.append(w)
+            for _ in range(rng.randint(2, 4)):
+                new_utxo(w, room // 2 + rng.randint(0, 9) * ADA)
+        if src in ('potential', 'both'):
+            for _ in range(rng.randint(1, 3)):
+                potential.append(new_utxo(['k', some_hash()], room + rng.randint(0, 9) * ADA))
+    elif have > 12 * ADA and rng.random() < 0.6:
+        outputs.append([['k', some_hash()], rng.randint(2, 5) * ADA])
+    # collateral: given, or left to the builder
+    collateral_change = None
+    if with_plutus:
+        if mode == 'explicit':
+            for _ in range(rng.randint(1, 2)):
+                collateral.append(new_utxo(['k', some_hash()], rng.randint(4, 9) * ADA))
+        else:
+            src = rng.choice(['change-wallet', 'cc-wallet', 'cc-wallet', 'potential', 'potential-many'])
+            if src == 'change-wallet':
+                for _ in range(rng.randint(1, 2)):
+                    new_utxo(change, rng.randint(4, 9) * ADA)
+            elif src == 'cc-wallet':
+                collateral_change = ['k', some_hash()]
+                for c in rng.choice([[8], [6, 1500000 / ADA], [2.5, 2.2, 2.1]]):
+                    new_utxo(collateral_change, int(c * ADA))
+            elif src == 'potential':
+                potential.append(new_utxo(['k', some_hash()], rng.randint(4, 9) * ADA))
+            else:                                         # several small UTxOs of different keys
+                for _ in range(3):
+                    potential.append(new_utxo(['k', some_hash()], rng.randint(2100000, 2900000)))
+            if rng.random() < 0.3:                        # a script-locked candidate the builder has to pass over
+                potential.append(new_utxo(['s', rng.randbytes(28).hex()], 7 * ADA))
+    rs = [some_hash() for _ in range(rng.randint(1, 2))] if rng.random() < 0.2 else None
+    certs, withdrawals, voters = [], [], []
+    if rng.random() < 0.2:
+        certs.append(dict(code=rng.choice([1, 2, 8, 9, 17]), cred=['k', some_hash()], anchor=False))
+    if rng.random() < 0.2:
+        withdrawals.append(dict(cred=['k', some_hash()], coin=rng.randint(0, 3) * ADA))
+    complete = rng.random() < 0.6
+    supplied = [k for k in pool if complete or rng.random() < 0.7]
+    supplied += rng.sample(range(len(U)), rng.randint(0, 2))
+    for k in list(supplied):
+        if k in alias and rng.random() < 0.4:
+            supplied.append(rng.choice(alias[k]))
+    rng.shuffle(supplied)
+    return dict(keys=U, supplied=supplied, force=rng.random() < 0.3, auto=rng.choice([None, None, None, True, False]),
+                utxos=utxos, inputs=inputs, collateral=collateral, required_signers=rs, native_scripts=None,
+                attached=[], extra_refs=[], certs=certs, withdrawals=withdrawals, voters=voters,
+                witness_override=None, change=change, sign=True, plutus=plutus, potential=potential,
+                input_addresses=input_addresses, outputs=outputs, collateral_change=collateral_change)
 
 
 def corpus(U):
@@ -401,7 +538,39 @@ def corpus(U):
                                                                           coin=9 * ADA, script=other)],
                  inputs=[0, 1], extra_refs=[3],
                  attached=[dict(how='input', ns=ms, via='witness', pass_obj=True, utxo=1), dict(how='mint', ns=ms, via='ref', ref_utxo=2)])
-    return [nofk, att, dup, ref_spend, ref_mint, ref_wd, ref_cert, look, selfc, mixed]
+    # forced keys the transaction does not need, listed after / between / before the needed one; no needed key at all
+    f_after = base(supplied=[0, 5, 16], force=True)
+    f_mid = base(supplied=[5, 0, alias_idx, 16], force=True)
+    f_before = base(supplied=[16, 5, 0], force=True)
+    tl = ['all', [['after', 100]]]
+    f_none = base(supplied=[5, 16], force=True, utxos=[dict(txid='51' * 32, ix=2, pay=['s', ns_hash(tl)], stake=None, coin=50 * ADA)],
+                  attached=[dict(how='input', ns=tl, via='witness', pass_obj=True, utxo=0)], change=['k', U[5]['kh']])
+    # Plutus spend, nothing else key-locked (or only an input too small to be collateral); the builder picks the collateral:
+    # from the wallet at collateral_change_address (another key), at the change address, from potential inputs (two keys)
+    pb = 'c10a' * 9
+    ph = plutus_hash(2, pb)
+    sutxo = dict(txid='61' * 32, ix=0, pay=['s', ph], stake=None, coin=20 * ADA, datum='hash')
+    pl = dict(how='input', ver=2, body=pb, via='witness', mem=1000000, steps=300000000, utxo=0)
+    def pbase(**kw):
+        d = base(supplied=[0, 1, 2], utxos=[dict(sutxo)], inputs=[0], plutus=[dict(pl)], potential=[], input_addresses=[],
+                 outputs=[[['k', U[0]['kh']], 5 * ADA]], collateral_change=None)
+        d.update(kw)
+        return d
+    w1 = dict(txid='62' * 32, ix=1, pay=['k', U[1]['kh']], stake=None, coin=8 * ADA)
+    w0 = dict(txid='63' * 32, ix=1, pay=['k', U[0]['kh']], stake=None, coin=7 * ADA)
+    small0 = dict(txid='64' * 32, ix=0, pay=['k', U[0]['kh']], stake=None, coin=1600000)
+    p_cc = pbase(utxos=[dict(sutxo), w1], collateral_change=['k', U[1]['kh']])
+    p_change = pbase(utxos=[dict(sutxo), w0])
+    p_small = pbase(utxos=[dict(sutxo), w1, small0], inputs=[0, 2], collateral_change=['k', U[1]['kh']])
+    p_pot = pbase(utxos=[dict(sutxo), dict(w1, coin=2500000), dict(txid='65' * 32, ix=0, pay=['k', U[2]['kh']], stake=None, coin=2400000)],
+                  potential=[1, 2])
+    p_ref = pbase(utxos=[dict(sutxo), w1, dict(txid='66' * 32, ix=4, pay=['k', U[6]['kh']], stake=None, coin=12 * ADA, pscript=[2, pb])],
+                  plutus=[dict(pl, via='ref', ref_utxo=2)], collateral_change=['k', U[1]['kh']])
+    # plain payment that needs coin selection from the wallet of another key
+    sel = base(supplied=[0, 1], utxos=[dict(u0, coin=10 * ADA), dict(w1, coin=40 * ADA)], outputs=[[['k', U[5]['kh']], 30 * ADA]],
+               input_addresses=[['k', U[1]['kh']]])
+    return [nofk, att, dup, ref_spend, ref_mint, ref_wd, ref_cert, look, selfc, mixed,
+            f_after, f_mid, f_before, f_none, p_cc, p_change, p_small, p_pot, p_ref, sel]
 
 
 # ---------------------------------------------------------------- Coq rendering
@@ -487,10 +656,19 @@ def r_bdesc(sc):
             ref_utxos.append(i)
     refin_scripts = [r_ns(sc['utxos'][i]['script']) for i in ref_utxos if sc['utxos'][i].get('script') is not None]
     mint = [hx(ns_hash(a['ns'])) for a in att if a['how'] == 'mint']
+    pls = sc.get('plutus', [])
+    def ph(a):
+        return plutus_hash(a['ver'], a['body'])
+    mint += [hx(ph(a)) for a in pls if a['how'] == 'mint']
+    certs += [f'StakeDelegation (ScriptH {hx(ph(a))})' for a in pls if a['how'] == 'cert']
+    wds += [f'ScriptH {hx(ph(a))}' for a in pls if a['how'] == 'withdrawal']
+    pl_all = sorted({ph(a) for a in pls})
+    pl_ref = sorted({ph(a) for a in pls if a['via'] == 'ref'})
     return ('(mkB ' + C.clist(ins) + ' ' + C.clist(col) + ' ' + C.clist([hx(h) for h in (sc['required_signers'] or [])]) + ' '
             + C.clist([r_ns(n) for n in (sc['native_scripts'] or [])]) + ' ' + C.clist([r_ns(a['ns']) for a in att]) + ' '
             + C.clist(refs) + ' ' + C.clist(in_scripts) + ' ' + C.clist(refin_scripts) + ' ' + C.clist(mint) + ' '
-            + C.clist(certs) + ' ' + C.clist(wds) + ' ' + C.clist([r_voter(v) for v in sc['voters']]) + ' ' + wo + ')')
+            + C.clist(certs) + ' ' + C.clist(wds) + ' ' + C.clist([r_voter(v) for v in sc['voters']]) + ' ' + wo + ' '
+            + r_hexlist(pl_all) + ' ' + r_hexlist(pl_ref) + ')')
 
 
 META = {('ord', 'plain'): 0, ('ord', 'payment'): 1, ('ord', 'stake'): 2, ('ord', 'pool'): 3,
@@ -533,7 +711,9 @@ def post(sc, res):
                 sigs[p] = E.sign(p, txid)
         elif p[:64] not in sigs:
             sigs[p[:64]] = E.sign_extended(p[:32], p[32:64], txid)
-    return dict(tx=tx, body=body, off=off, txid=txid, wits=wits, verif=verif, sigs=sorted(sigs.items()))
+    return dict(tx=tx, body=body, off=off, txid=txid, wits=wits, verif=verif, sigs=sorted(sigs.items()),
+                sel_inputs=res.get('sel_inputs', []), sel_collateral=res.get('sel_collateral', []),
+                req_post=res.get('req_post', []))
 
 
 def _post(cr):
@@ -548,19 +728,26 @@ def r_case(sc, res, pp):
     sl = ('(mkSlice ' + ' '.join(r_hexlist(s[k]) for k in ('required_signers', 'inputs', 'certs', 'votes', 'withdrawals', 'native', 'required'))
           + f' {s["witness_count"]}%N ' + r_pairs(s['fake']) + ' ' + r_hexlist(s['all_scripts']) + ' ' + r_hexlist(s['scripts']) + ')')
     table = C.clist([f'(({hx(u["txid"])}, {u["ix"]}%N), ({r_cred(u["pay"])}, '
-                     + ('None' if u.get('script') is None else f'Some ({r_ns(u["script"])})') + '))' for u in sc['utxos']])
+                     + ('None' if u.get('script') is None else f'Some ({r_ns(u["script"])})') + ', '
+                     + ('None' if u.get('pscript') is None else f'Some ({u["pscript"][0]}%N, {hx(u["pscript"][1])})') + '))'
+                     for u in sc['utxos']])
+    ppar = '(mkPP ' + ' '.join(f'{int(x)}%N' for x in res['pp']) + ')'
+    def r_outpoints(l):
+        return C.clist([f'({hx(t)}, {ix}%N)' for t, ix in l])
     pubs = sorted({(k['payload'], k['vk']) for k in keys if k['kind'] == 'ord'})
     h28 = {(k['vk'], k['kh']) for k in keys}
     h28 |= {((b'\x00' + ns_enc(ns)).hex(), ns_hash(ns)) for ns in scenario_scripts(sc)}
+    h28 |= {(bytes([a['ver']]).hex() + a['body'], plutus_hash(a['ver'], a['body'])) for a in sc.get('plutus', [])}
     if pp:
         h28 |= {(vk.hex(), b224(vk).hex()) for vk, _ in pp['wits']}
         signed = ('(Some (mkSigned ' + hx(pp['tx'].hex()) + f' {pp["off"]}%N {len(pp["body"])}%N ' + hx(pp['txid'].hex()) + ' '
-                  + r_hexlist(res.get('req_post', [])) + f' {res.get("n_fake_post", 0)}%N ' + r_pairs([(a.hex(), b.hex()) for a, b in pp['sigs']]) + ' '
+                  + r_hexlist(res.get('req_post', [])) + f' {res.get("n_fake_post", 0)}%N ' + r_outpoints(res.get('sel_inputs', [])) + ' '
+                  + r_outpoints(res.get('sel_collateral', [])) + ' ' + r_pairs([(a.hex(), b.hex()) for a, b in pp['sigs']]) + ' '
                   + C.clist([f'(({hx(v.hex())}, {hx(m.hex())}, {hx(g.hex())}), {C.cbool(ok)})' for (v, m, g), ok in pp['verif']]) + '))')
     else:
         signed = 'None'
     return ('(mkCase ' + r_bdesc(sc) + ' ' + C.clist([r_skey(k) for k in keys]) + ' ' + r_auto(sc['auto']) + ' ' + C.cbool(sc['force'])
-            + ' ' + table + ' ' + r_hexlist([k['kh'] for k in keys]) + ' ' + r_pairs(pubs) + ' ' + r_pairs(sorted(h28)) + ' ' + sl
+            + ' ' + table + ' ' + ppar + ' ' + r_hexlist([k['kh'] for k in keys]) + ' ' + r_pairs(pubs) + ' ' + r_pairs(sorted(h28)) + ' ' + sl
             + ' ' + C.cbool(bool(sc.get('sign', True))) + ' ' + signed + ')')
 
 
@@ -673,10 +860,34 @@ def features(sc, pp):
     f.append('auto:' + str(sc['auto']))
     if sc['witness_override'] is not None:
         f.append('witness_override')
+    for a in sc.get('plutus', []):
+        for t in ('plutus', f'plutus:V{a["ver"]}', 'plutus:' + a['via'] + '/' + a['how']):
+            if t not in f:
+                f.append(t)
+    for k in ('potential', 'input_addresses', 'outputs', 'collateral_change'):
+        if sc.get(k):
+            f.append(k)
     if pp is not None:
         f.append(f'witnesses:{min(len(pp["wits"]), 6)}')
         if len(pp['wits']) < len({U[i]['kh'] for i in sc['supplied']}):
             f.append('unrelated-key-left-out')
+        if sc['force']:
+            got = {b224(vk).hex() for vk, _ in pp['wits']}
+            order = [U[i]['kh'] for i in sc['supplied']]
+            need = [j for j, h in enumerate(order) if h in set(pp.get('req_post', []))]
+            if any(j > max(need, default=-1) for j, h in enumerate(order) if h not in set(pp.get('req_post', []))):
+                f.append('forced-unneeded-key-after-last-needed')
+            if not need:
+                f.append('forced-no-needed-key')
+        where = {(u['txid'], u['ix']): u for u in sc['utxos']}
+        if pp.get('sel_inputs'):
+            f.append('coin-selection-added-inputs')
+        if pp.get('sel_collateral'):
+            f.append(f'builder-picked-collateral:{len(pp["sel_collateral"])}')
+            other = {where[(t, ix)]['pay'][1] for t, ix in pp['sel_collateral']}
+            ins = {sc['utxos'][i]['pay'][1] for i in sc['inputs']} | {where[(t, ix)]['pay'][1] for t, ix in pp.get('sel_inputs', [])}
+            if not other <= (ins | set(sc['required_signers'] or [])):
+                f.append('picked-collateral-key-not-otherwise-required')
     return f
 
 
@@ -698,12 +909,14 @@ def strip(sc):
     return d
 
 
-def correspond(ctx, n_sign=None, n_slice=None):
-    n_sign = n_sign or ctx.n(150, 4000)
-    n_slice = n_slice or ctx.n(120, 6000)
+def correspond(ctx, n_sign=None, n_slice=None, n_build=None):
+    n_sign = n_sign or ctx.n(120, 4000)
+    n_slice = n_slice or ctx.n(90, 6000)
+    n_build = n_build or ctx.n(64, 3000)
     U, alias = universe(ctx.rng)
     cases = corpus(U)
-    cases += [gen_scenario(ctx.rng, U, alias, i, True) for i in range(n_sign)]
+    cases += [gen_scenario(ctx.rng, U, alias, i, True, complete=i % 3 == 0) for i in range(n_sign)]
+    cases += [gen_build_scenario(ctx.rng, U, alias, i) for i in range(n_build)]
     cases += [gen_scenario(ctx.rng, U, alias, i, False) for i in range(n_slice)]
     results, posts, mism, ofail, errs = run(ctx, cases)
     if errs:
@@ -746,7 +959,11 @@ def correspond(ctx, n_sign=None, n_slice=None):
              'context lookup, the same script for two purposes, hand-made reference inputs with unrelated or copied scripts, 17 certificate kinds, key/script withdrawals, cc/drep/spo voters}, hashes drawn '
              'from a universe of 14 ordinary + 9 extended keys (+ the same key pairs as other classes / extended form) or random; signing '
              'keys = pool keys, unrelated keys, duplicate objects, aliases of one key pair; force_skeys, auto_required_signers in '
-             '{None,True,False}, witness_override. non-trivial = signed transaction with >=1 witness and >=5 features; distinct by hash',
+             '{None,True,False}, witness_override; a third of the signed scenarios complete (every hash belongs to a supplied key, unrelated keys '
+             'anywhere in the list); build scenarios: Plutus V1-V3 spend/mint/withdraw/certificate scripts shipped or referenced, explicit '
+             'execution units, collateral given or picked by the builder from inputs / potential inputs / the wallet at the change or a separate '
+             'collateral_change_address (1-3 UTxOs, keys required otherwise or not, script-locked and too-small candidates in between), key '
+             'inputs absent / <= 2 ADA / ordinary, outputs that need coin selection from input addresses / potential inputs. non-trivial = signed transaction with >=1 witness and >=5 features; distinct by hash',
         samples=[light(cases[3]), light(cases[len(cases) // 2])],
         feature_histogram=dict(sorted(hist.items())), certificate_kind_histogram=dict(sorted(cert_hist.items())),
         exception_histogram=err_hist, signed_transactions=sum(1 for p in posts if p), witnesses_verified=n_w,
@@ -756,7 +973,9 @@ def correspond(ctx, n_sign=None, n_slice=None):
                  'prepared builder; end to end: shipped native scripts, reference/spent-output scripts and needed script hashes of tx = model; '
                  'witness set of tx = model with reference signatures (byte exact), required set after build, ledger view read from the tx '
                  '= scenario; oracle: RFC 8032 verification of every witness over blake2b-256(body slice), sizes, no duplicate key, witness '
-                 'hashes = supplied /\\ Ledger.required(tx) (all supplied when forced; legacy registration key tolerated)',
+                 'hashes = supplied /\\ Ledger.required(tx) (all supplied when forced; legacy registration key tolerated); builder after build '
+                 '(selected inputs, picked collateral, required set, placeholder count, Plutus scripts shipped) = model; fee of the body within '
+                 '[min_fee(tx with #distinct required placeholders), min_fee(... tolerated count) + margin]',
         mismatches=[pack(i) for i in sorted(mism)[:20]],
         oracle_fail=[pack(i) for i in new_fail[:50]],
     )
@@ -764,7 +983,7 @@ def correspond(ctx, n_sign=None, n_slice=None):
 
 def search(ctx, mism):
     ctx.rng.seed(f'search-{ctx.seed}')
-    r = correspond(ctx, 300 if ctx.quick else 6000, 150 if ctx.quick else 3000)
+    r = correspond(ctx, 300 if ctx.quick else 6000, 150 if ctx.quick else 3000, 150 if ctx.quick else 3000)
     if r['oracle_fail']:
         return min(r['oracle_fail'], key=lambda f: len(json.dumps(f, default=str)))
     return None
